@@ -909,8 +909,10 @@ def add_embed_tag(rng, spec, side=None, kind=None, namesake=0.6):
             nm = "Secret" if sd == "src" else "SecretD"
             ms = st["members"]
             # a field that is not part of a multi-name declaration (`A, B int`): neither joined to its predecessor nor followed by a joined one
+            man = spec.get("manual") or {}
+            owned = set(man.get("rfields", []) if sd == "src" else man.get("wfields", []))      # the hook bodies assign these by their bare name
             fs = [m for i_, m in enumerate(ms) if m["k"] == "f" and m["name"][:1].isupper() and m.get("tag") is None and not m.get("join") and
-                  not (i_ + 1 < len(ms) and ms[i_ + 1].get("join"))]
+                  not (i_ + 1 < len(ms) and ms[i_ + 1].get("join")) and m["name"] not in owned]
             if not fs:
                 continue
             f = rng.choice(fs)
